@@ -2,6 +2,7 @@
 # Vehicle: mutex-aware cooperative scheduler over the verif yield points of loom/wait_close.go
 # (DESIGN.md 4.2) + a small real-time WaitUtil stream (monitor only).
 import json
+import os
 import re
 
 from . import common
@@ -320,6 +321,80 @@ def run_wait_stream(chk, binary, tier):
     chk.sample(dict(stream="waitutil-realtime", case=cases[0], impl=impl[0]), limit=12)
 
 
+# ------------------------------------------------------------------ WaitUtil on the virtual clock
+def gen_wait_ft(rng, tier):
+    """faketime scenarios: the close happens delta ns before / after / exactly at the timeout."""
+    cases = []
+    timeouts = [1000, 1000000, 77, 3000000000] if tier == "quick" else [1000, 1000000, 77, 3000000000, 13, 999999937, 60000000000]
+    for timeout in timeouts:
+        for delta in (1, 2, max(1, timeout // 2), timeout - 1):
+            for mode in ("before", "after", "cbslow", "initrace"):
+                if mode in ("before", "cbslow", "initrace") and delta > timeout:
+                    continue
+                cases.append("c16f mode=%s timeout=%d delta=%d" % (mode, timeout, delta))
+        for mode in ("tie", "closed", "closedinit"):
+            cases.append("c16f mode=%s timeout=%d delta=0" % (mode, timeout))
+    for _ in range(40 if tier == "quick" else 2000):
+        timeout = rng.range(2, 10 ** rng.range(1, 10))
+        delta = rng.range(1, timeout - 1)
+        cases.append("c16f mode=%s timeout=%d delta=%d" % (rng.choice(["before", "after", "cbslow", "initrace"]), timeout, delta))
+    return sorted(set(cases))
+
+
+def expect_wait_ft(case):
+    """what wc_waitutil_iff says: true iff the close event precedes the timer event; the call
+    returns at the earlier of the two instants (None = exact tie: either)."""
+    m = dict(t.split("=", 1) for t in case.split()[1:])
+    timeout, delta, mode = int(m["timeout"]), int(m["delta"]), m["mode"]
+    if mode in ("before", "cbslow", "initrace"):
+        return (True, timeout - delta)
+    if mode == "after":
+        return (False, timeout)
+    if mode in ("closed", "closedinit"):
+        return (True, 0)
+    return None
+
+
+def run_wait_ft_stream(chk, tier):
+    try:
+        binary = common.build_go("./cmd/ftwc", tags="verif faketime")
+    except common.BuildError as e:
+        chk.infra_errors.append("faketime WaitUtil harness does not build against /repo: " + str(e)[-800:])
+        return
+    cases = gen_wait_ft(chk.rng.fork(), tier)
+    try:
+        impl = common.run_impl(binary, cases, timeout=600, env=dict(os.environ, GOMAXPROCS="2"))
+    except common.ImplCrash as e:
+        chk.infra_errors.append("faketime WaitUtil stream crashed: " + str(e)[-800:])
+        return
+    for c, i in zip(cases, impl):
+        chk.count_case("waitutil-faketime", c, True)
+        mo = re.match(r"res=(\w+) ns=(-?\d+) closed=(\w+)$", i)
+        if not mo:
+            chk.monitor_fail("crash", c, i, "no result from the implementation")
+            continue
+        if mo.group(1) == "HANG":
+            chk.monitor_fail("waitutil-hang", c, i, "WaitUtil did not return on the virtual clock")
+            continue
+        res, ns = mo.group(1) == "true", int(mo.group(2))
+        exp = expect_wait_ft(c)
+        chk.cov["disagreements_checked"] += 1
+        if exp is None:
+            m = dict(t.split("=", 1) for t in c.split()[1:])
+            if ns != int(m["timeout"]):
+                chk.monitor_fail("waitutil-time", c, i, "tie: WaitUtil must return at the timeout instant whichever branch wins")
+            continue
+        if res != exp[0]:
+            chk.monitor_fail("waitutil-result", c, i, "WaitUtil returned %s, but the close happened %s its timeout" % (res, "before" if exp[0] else "after"))
+        elif ns != exp[1]:
+            chk.monitor_fail("waitutil-time", c, i, "WaitUtil returned after %d ns, expected %d ns (the earlier of close and timeout)" % (ns, exp[1]))
+        elif mo.group(3) != "true":
+            chk.monitor_fail("isclosed-after-close", c, i, "IsClosed false after Close returned")
+        else:
+            chk.cov["traces_validated_against_impl"] += 1
+    chk.sample(dict(stream="waitutil-faketime", case=cases[0], impl=impl[0]), limit=12)
+
+
 # ------------------------------------------------------------------ vm_compute cross-check
 OPCOQ = {"K0": "OpClose CbNone", "Kn": "OpClose (Cb ONil false)", "Ke": "OpClose (Cb OErr false)",
          "Kp": "OpClose (Cb OPanic false)", "KN": "OpClose (Cb ONil true)", "KE": "OpClose (Cb OErr true)",
@@ -465,6 +540,7 @@ def run(chk):
         except Exception as ex:
             chk.infra_errors.append("vm_compute cross-check failed: %r" % (ex,))
         run_wait_stream(chk, binary, chk.tier)
+        run_wait_ft_stream(chk, chk.tier)
         chk.cov["step_observation_histogram_sampled"] = dict(sorted(EVHIST.items()))
     chk.finish(search=search)
 
